@@ -85,7 +85,12 @@ def object_symbols(relpath):
     """writable / TLS data symbols of the compiled translation unit: [(section, demangled name)]"""
     astdb._ensure_gen()
     odir = os.path.join(astdb.WORK, 'objs', astdb.source_hash())
-    os.makedirs(odir, exist_ok=True)
+    if not os.path.isdir(odir):
+        os.makedirs(odir, exist_ok=True)
+        base = os.path.dirname(odir)       # prune objects of older source states
+        for fn in os.listdir(base):
+            if fn != astdb.source_hash():
+                subprocess.call(['rm', '-rf', os.path.join(base, fn)])
     obj = os.path.join(odir, relpath.replace('/', '_') + '.o')
     if not os.path.exists(obj):
         cmd = ['g++', '-std=c++17', '-O1', '-DNDEBUG', '-DDSPLIB_FFT_CACHE_SIZE=4', '-c', '-I' + os.path.join(astdb.REPO, 'include'), '-I' + astdb.GEN,
